@@ -184,7 +184,11 @@ def configs(ck):
 
     ck_cores = -1 if ck.quick else 4  # solves are expensive: use the library's own pool
     if ck.quick:
-        cfgs += [base(1, 0, "unpol", 4, 4, True), base(2, 0, "unpol", 4, 5, True), base(1, 0, "pol", 3, 3, True)]
+        c1 = base(1, 0, "unpol", 4, 4, True)
+        c1["scvar"], c1["xif"] = "expanded", 2.0  # the expanded scale-variation factor conserves the sum rules as well
+        c2 = base(2, 0, "unpol", 3, 4, True)
+        c2["init"][0] = c2["masses"][0] * c2["ratios"][0]  # start exactly on the charm matching scale: zero-length first segment
+        cfgs += [c1, c2, base(1, 0, "pol", 3, 3, True)]
         lin = base(1, 0, "unpol", 4, 4, True, nlow=14, nhigh=14, xmin=1e-4)
         lin["is_log"] = False  # polynomial-in-x interpolation declared in the card must be honoured and conserve as well
         lin["targets"] = [[lin["init"][0] * 2.0, 4]]
@@ -197,6 +201,12 @@ def configs(ck):
             lin["is_log"] = False
             lin["targets"] = [[lin["init"][0] * 2.0, 4]]
             cfgs.append(lin)
+        for q in (1, 2, 3):
+            cz = base(q, 0, "unpol", 3, 4, True)
+            cz["init"][0] = cz["masses"][0] * cz["ratios"][0]
+            cs = base(q, 0, "unpol", 4, 4, True)
+            cs["scvar"], cs["xif"] = ["expanded", "exponentiated"][q % 2], float(rng.choice([0.5, 2.0]))
+            cfgs += [cz, cs]
         cfgs += [base(2, 0, "unpol", 5, 4, False), base(1, 0, "unpol", 3, 4, True, nlow=18, nhigh=18), base(1, 1, "unpol", 4, 4, True), base(2, 1, "unpol", 4, 4, True), base(2, 0, "unpol", 3, 3, True, method="iterate-expanded"), base(2, 0, "pol", 4, 4, False)]
     return cfgs
 
